@@ -559,6 +559,24 @@ def fault_descs_extra(rng, tier_quick=True):
         kw.update(hist="N,I,C0,A", args0="%d:4:-8:3" % sel, meas=0, mconv=0, ref=0, fstride=1 if tb else stride + (2 if tier_quick else 0),
                   foff=0 if tb else rng.randint(0, 2), ftarget="b" if tb else "a")
         out.append(desc(**kw))
+    # fault kinds: (1) an exception type OUTSIDE the std::exception hierarchy, at every application index - the complex-shift solver included,
+    # whose eigenvalue recovery applies the operator after the counted iteration; (2) the user's A operator RETURNS a NaN entry once and the
+    # library's own B wrapper (SparseRegularInverse: conjugate gradients) is what throws - it must not stay in the failed state
+    for i, cls in enumerate(["gencs", "sym", "gen", "genrs", "gencs"][:(3 if tier_quick else 5)]):
+        gen = cls != "sym"
+        n = rng.randint(9, 13)
+        nev, ncv = pick_dims(rng, n, gen=gen)
+        kw = dict(cls=cls, ty="d", n=n, nev=nev, ncv=ncv, seed=rng.randint(1, 10 ** 6), fam="rand", hist="N,I,C0,A", args0="0:4:-8:%d" % (0 if gen else 3),
+                  meas=0, mconv=0, ref=0, fstride=1 if cls == "gencs" or not tier_quick else 3, foff=0, fkind=1)
+        if cls == "genrs":
+            kw["sigma"] = "0.37"
+        if cls == "gencs":
+            kw.update(sigma="0.37", sigmai="0.8")
+        out.append(desc(**kw))
+    for i in range(2 if tier_quick else 6):
+        kw = geig_kw(rng, "greginv", "d", nmax=12)
+        kw.update(hist="N,I,C0,A", args0="0:3:-8:3", meas=0, mconv=0, ref=0, fstride=1, foff=0, ftarget="a", fkind=2)
+        out.append(desc(**kw))
     return out
 
 
